@@ -14,9 +14,15 @@ TIMEOUT = {"quick": 600, "thorough": 3000}
 
 def expression_set(tier):
     A = atom_vocabulary()
+    # TimeQuery with a naive comparison value: legal to construct, so equality must not confuse it with the aware one
+    from ..gen import BASE_US
+
+    naive = [("cmp", "time", (), op, ("NAIVE", us)) for op in ("==", "!=", "<", ">=") for us in (BASE_US, BASE_US + 1)]
+    A = list(A) + naive
     E = list(A) + [("not", a) for a in A]
     sub = quick_atoms(A)[: (18 if tier == "quick" else 34)]
     lits = sub if tier == "quick" else sub + [("not", a) for a in sub[:12]]
+    lits = lits + naive[:3]
     for a in lits:
         for b in lits:
             E.append(("and", a, b))
